@@ -364,10 +364,11 @@ func verifSplitLines(b []byte) []string {
 }
 
 // verif_C09_client: Client.Auth against a scripted peer: k challenge steps
-// with arbitrary challenge and response octets, final 235 or 535, or a
-// mechanism error at some step.
+// with arbitrary challenge and response octets (responses of 0..4 octets each,
+// so that their base64 forms differ in length within one exchange), final 235
+// or 535, or a mechanism error at some step.
 func verif_C09_client() {
-	k := nondetInt(0, verifBound(1, 2))
+	k := nondetInt(0, verifBound(2, 3))
 	m := &vsaslClient{errAt: -1}
 	switch verifChoice(3) {
 	case 0:
@@ -383,7 +384,9 @@ func verif_C09_client() {
 		ch := nondetBytes(2)
 		chals = append(chals, ch)
 		script += "334 " + verifB64Encode(ch) + "\r\n"
-		m.resp = append(m.resp, nondetBytes(2))
+		// (0..4 octets: responses of different base64 lengths in one exchange,
+		// a later one shorter than an earlier one included)
+		m.resp = append(m.resp, nondetBytes(4))
 	}
 	if k > 0 && nondetBool() {
 		m.errAt = nondetInt(0, k-1)
